@@ -1659,3 +1659,24 @@ package trzsz
 //@     invariant osc52Private(filter, old(buf))
 //@     invariant ref(old(buf)) != 0 ==> heap("byte")[ref(old(buf))] == old(heap("byte"))[ref(old(buf))]
 //@ end
+
+//@ # C08: probing whether compression pays reads samples of the source but, on success, leaves the
+//@ # file positioned exactly where it was (the resume offset agreed by the prefix hashes).
+//@ func fileReader.getFile trusted pure
+//@ end
+//@ func fileReader.getSize trusted pure
+//@ end
+//@ func isCompressedFileContent
+//@   assigns fpos, elemsof("byte")
+//@   ensures forall f int {fpos[f]} :: f != file ==> fpos[f] == old(fpos)[f]
+//@ end
+//@ func isCompressionProfitable
+//@   assigns fpos, elemsof("byte")
+//@   ensures [C08] r1 == nil ==> (forall f int {fpos[f]} :: fpos[f] == old(fpos)[f])
+//@ end
+//@ func trzszTransfer.isCompressFixed pure
+//@ end
+//@ # ... and so does announcing the compression choice
+//@ func trzszTransfer.sendCompressFlag
+//@   ensures [C08] r1 == nil ==> (forall f int {fpos[f]} :: fpos[f] == old(fpos)[f])
+//@ end
